@@ -122,14 +122,14 @@ def extra_stage(tier, rng, work):
     TCP relays, per-ip limit changed / disabled at run time, storms above max_connections with and without eviction;
     QueryMetrics gauges compared with the idle baseline, per-ip slots free again, no clamped gauge underflow, never
     more than max_connections / the per-ip limit served at once; runs through the `bb` op of the driver"""
-    # (seed, max_connections, per-ip limit, rounds, evict_on_queue_full, zombie_check_interval)
+    # (seed, max_connections, per-ip limit, rounds, evict_on_queue_full, zombie_check_interval, only-outcomes (k = all), revive)
     if tier == "thorough":
-        cfgs = [(rng.randrange(1, 10 ** 6), mx, lim, 40, ev, zo)
+        cfgs = [(rng.randrange(1, 10 ** 6), mx, lim, 40, ev, zo, "k", 1)
                 for (mx, lim, ev, zo) in [(1, 0, 0, 0), (1, 1, 0, 0), (2, 0, 0, 0), (2, 1, 1, 0), (2, 2, 0, 3), (3, 1, 0, 0),
                                           (5, 0, 1, 0), (5, 1, 0, 3), (5, 2, 0, 0), (8, 3, 1, 3), (3, 0, 0, 3), (4, 2, 1, 0)]]
     else:
-        cfgs = [(rng.randrange(1, 10 ** 6), 1, 0, 10, 0, 0), (rng.randrange(1, 10 ** 6), 2, 1, 10, 0, 0),
-                (rng.randrange(1, 10 ** 6), 4, 2, 10, 1, 3)]
+        cfgs = [(rng.randrange(1, 10 ** 6), 1, 0, 10, 0, 0, "k", 0), (rng.randrange(1, 10 ** 6), 2, 1, 10, 0, 0, "k", 0),
+                (rng.randrange(1, 10 ** 6), 4, 2, 10, 1, 3, "k", 0)]
     cases = [Case("bb%d_%d_%d" % (i, c[1], c[2]), [["bb"] + list(c)], {}) for i, c in enumerate(cfgs)]
     outs, problems = vlib.run_harness(HARNESS_BIN, cases, os.path.join(work, "bb"), "release", timeout=1200, shards=len(cases))
     viols, fails = [], list(problems)
@@ -149,7 +149,7 @@ def extra_stage(tier, rng, work):
             if n.startswith("invalid-case"):
                 fails.append("black-box case %s: %s" % (c.id, n))
     return dict(failures=fails, viols=viols, coverage=dict(blackbox_runs=len(cases), blackbox_completed=done,
-                blackbox_configs=["seed=%d max_connections=%d per_ip=%d rounds=%d evict=%d zombie=%d" % c for c in cfgs]))
+                blackbox_configs=["seed=%d max_connections=%d per_ip=%d rounds=%d evict=%d zombie=%d only=%s revive=%d" % c for c in cfgs]))
 
 
 def nontrivial(case, o):
